@@ -22,8 +22,8 @@ StateOf(g) ==
             totLocked |-> 0, totLockedDen |-> g.ent.denom, totSpent |-> 0],
    wrk |-> RegInit(g.wrk), bcn |-> RegInit(g.bcn),
    str |-> [p |-> [feeNum |-> g.str.feeNum, feeDen |-> g.str.feeDen], s |-> <<>>],
-   grants |-> <<>>,
-   aux |-> [props |-> <<>>, nextProp |-> 1, ever |-> [wrk |-> <<>>, bcn |-> <<>>], sh |-> <<>>, ghost |-> {}, ghostp |-> {}]]
+   grants |-> <<>>, fgrants |-> <<>>,
+   aux |-> [props |-> <<>>, nextProp |-> 1, ever |-> [wrk |-> <<>>, bcn |-> <<>>], sh |-> <<>>, ghost |-> {}, ghostp |-> {}, exsig |-> {}]]
 
 
 EndEv == [a |-> "EndBlock"]
